@@ -13,9 +13,10 @@ META = {
              "of that kind for the round before and exactly that target after (C02_emitted_was_signed_and_saved); the action store only "
              "grows. Per step (Properties/C02.v): signatures/saves refer to the current round and are made only for the strategy's answer. "
              "Refuted and reproduced on the code (known finding restart-resigns-then-halts): across a restart the SIGNER is invoked a "
-             "second time for the same height/round before the action store refuses. Not proved (monitors on every run only): signer "
-             "invoked at most once per kind per round within one lifetime (fails only on round-counter wrap in the model), and the "
-             "proposal variants of the emission theorems.",
+             "second time for the same height/round before the action store refuses. Properties/C02Once.v: within one lifetime the signer "
+             "is invoked at most once per kind per (height, round) (no-wrap guard on the height/round counters), at most once per kind "
+             "between two round entrances (no guard); proposals: an emitted proposed header is fresh (signed and saved first, none recorded) "
+             "or the re-sent recorded one, all proposals ever emitted for one (height, round) carry the same block data.",
     "note": "Trusted: Coq kernel, harness/sm, the ed25519 signer and memstores are the real ones. Crash between save and emit is modelled as "
             "a restart event after a completed event only.",
     "design_ref": "DESIGN.md 4 (C08/C02), design/C08.md",
@@ -36,7 +37,7 @@ def main(argv):
     c.assumes += ["a restart happens between events (after the kernel became quiet), on the same three stores"]
     c.grep_gate()
     tok, binary = S.prepare(c)
-    proved = tok and c.prove("C02") and c.prove("C02Inv")
+    proved = tok and c.prove("C02") and c.prove("C02Inv") and c.prove("C02Once")
     if binary is None:
         c.finish()
     n, steps = (48, 40) if c.tier == "quick" else (400, 60)
